@@ -1648,7 +1648,13 @@ class Parameter(_ParameterBase):
                     obj._param__private = _InstancePrivate(
                         explicit_no_refs=type(obj)._param__private.explicit_no_refs
                     )
-                _old = obj._param__private.values.get(name, self.default)
+                _old = obj._param__private.values.get(name, NotImplemented)
+                if _old is NotImplemented:
+                    # Not set on the object so far: it showed the class's
+                    # current default (self may be a per-instance copy whose
+                    # own default the class has since replaced)
+                    governing = type(obj).get_param_descriptor(name)[0]
+                    _old = self.default if governing is None else governing.default
                 obj._param__private.values[name] = val
         if update_ref is not None:
             update_ref()
